@@ -51,6 +51,8 @@ var Prop = &engine.Prop{
 	Kinds: []engine.Kind{
 		{Name: "gate", Quick: 8000, Thorough: 900000, Fn: gateCase},
 		{Name: "stress", Quick: 24, Thorough: 1800, Repeat: 20, Fn: stressCase},
+		{Name: "backlog", Quick: 64, Thorough: 2400, Fn: backlogCase},
+		{Name: "ctx-reuse", Quick: 400, Thorough: 16000, Fn: ctxReuseCase},
 	},
 	Floors: map[string]int64{
 		"queued_behind_running":   500,
@@ -903,4 +905,190 @@ func stressCase(k *engine.Case) {
 			return
 		}
 	}
+}
+
+// ---------------------------------------------------------------- deep backlog behind a busy lane
+
+// backlogCase: a few calls run to completion, then a gate call occupies the lane and 70-260
+// further callers are accepted one at a time (unbounded or large queue); when the gate opens
+// they must all run, once each, in exactly the order they were accepted.
+func backlogCase(k *engine.Case) {
+	r := k.R
+	qsize := []int{0, 0, 4096}[r.Intn(3)]
+	ex := newExecutor(r, qsize)
+	if _, ok := ex.(*procChanEx); ok {
+		wg := &sync.WaitGroup{}
+		p := async.NewProcChan(async.WithQSize(4096), async.WithWaitGroup(wg), async.WithName("verif"))
+		p.Run()
+		ex = &procChanEx{p, wg}
+	}
+	warm := 1 + r.Intn(5)
+	n := 70 + r.Intn(190)
+	hash := []int{0, 3, -3, 7}[r.Intn(4)]
+	k.Logf("executor=%s qsize=%d: %d calls run, then a gate call, then %d callers queue behind it (hash %d)", ex.Name(), qsize, warm, n, hash)
+	k.Nontrivial()
+	d := engine.NewDriver(Q, k)
+	var mu sync.Mutex
+	var order []int
+	counts := map[int]int{}
+	mk := func(id int, gate chan struct{}) calleeFn {
+		return func(ctx context.Context, laneArg int) (interface{}, error) {
+			mu.Lock()
+			order = append(order, id)
+			counts[id]++
+			mu.Unlock()
+			if gate != nil {
+				<-gate
+			}
+			return id * 10, nil
+		}
+	}
+	for i := 0; i < warm; i++ {
+		id := -1 - i
+		op := d.Spawn("warm", func() any { v, err := ex.Submit(context.Background(), hash, mk(id, nil)); return callRes{v, err} })
+		if !d.Quiesce() {
+			ex.Stop()
+			return
+		}
+		if !op.Done() {
+			k.Fail("caller-stuck", "a call on an idle executor did not return")
+			ex.Stop()
+			return
+		}
+	}
+	gate := make(chan struct{})
+	gop := d.Spawn("gate", func() any { v, err := ex.Submit(context.Background(), hash, mk(0, gate)); return callRes{v, err} })
+	if !d.Quiesce() {
+		close(gate)
+		ex.Stop()
+		return
+	}
+	ops := make([]*engine.Op, n)
+	for i := 0; i < n; i++ {
+		id := i + 1
+		ops[i] = d.Spawn(fmt.Sprintf("q%d", id), func() any { v, err := ex.Submit(context.Background(), hash, mk(id, nil)); return callRes{v, err} })
+		if i < 3 || i%16 == 0 || i == n-1 {
+			if !d.Quiesce() {
+				close(gate)
+				ex.Stop()
+				return
+			}
+		} else {
+			// acceptance order still has to be known: wait until the caller is parked in its
+			// result wait (cheap check: the op cannot be done, so wait for quiescence lazily)
+			if !d.Quiesce() {
+				close(gate)
+				ex.Stop()
+				return
+			}
+		}
+	}
+	k.Count("backlog_calls_queued", int64(n))
+	close(gate)
+	if !d.Quiesce() {
+		ex.Stop()
+		return
+	}
+	_ = gop
+	for i, op := range ops {
+		if !op.Done() {
+			k.Fail("caller-stuck", "after the gate opened, queued caller #%d of %d never returned", i+1, n)
+			ex.Stop()
+			return
+		}
+		cr := op.Result().(callRes)
+		if cr.err != nil || cr.v != (i+1)*10 {
+			k.Fail("foreign-result", "queued caller #%d received (%v, %v), own result is %d", i+1, cr.v, cr.err, (i+1)*10)
+			ex.Stop()
+			return
+		}
+	}
+	mu.Lock()
+	got := append([]int(nil), order...)
+	mu.Unlock()
+	// expected: warm calls, gate (0), then 1..n
+	idx := warm + 1
+	for want := 1; want <= n; want++ {
+		if idx >= len(got) || got[idx] != want {
+			lo := idx - 3
+			if lo < 0 {
+				lo = 0
+			}
+			hi := idx + 4
+			if hi > len(got) {
+				hi = len(got)
+			}
+			k.Fail("order", "%d callers were accepted in order 1..%d behind a busy lane, but the lane started them as ...%v... (position %d should be call %d)", n, n, got[lo:hi], idx, want)
+			ex.Stop()
+			return
+		}
+		idx++
+	}
+	for id, c := range counts {
+		if c != 1 {
+			k.Fail("executed-twice", "call %d was executed %d times", id, c)
+			ex.Stop()
+			return
+		}
+	}
+	ex.Stop()
+	wd := d.Spawn("WaitDone", func() any { ex.WaitDone(); return nil })
+	if d.Quiesce() && !wd.Done() {
+		k.Fail("lanes-not-terminated", "Stop after a drained backlog: lane goroutines did not terminate")
+	}
+}
+
+// ---------------------------------------------------------------- one call context, several executors
+
+// ctxReuseCase: a multi-line call context (hash, function, parameter) is an immutable
+// description of a call; submitting the same object to executors with different lane counts
+// (and several times to the same one) must route every submission by the hash and that
+// executor's lane count, and hand the callee that lane's index.
+func ctxReuseCase(k *engine.Case) {
+	r := k.R
+	hash := []int{7, -7, 0, 1, 12345, -12345, math.MaxInt, math.MinInt}[r.Intn(8)]
+	lanesA := []int{1, 2, 3, 7, 8}[r.Intn(5)]
+	lanesB := []int{1, 2, 3, 7, 8, 16}[r.Intn(6)]
+	ma := mline.NewMultiLine(pipe.WithSlotSize(lanesA), pipe.WithQSize(8))
+	mb := mline.NewMultiLine(pipe.WithSlotSize(lanesB), pipe.WithQSize(8))
+	ma.Run()
+	mb.Run()
+	k.Logf("one mline.CallCtx (hash %d) submitted to MultiLines with %d and %d lanes", hash, lanesA, lanesB)
+	k.Nontrivial()
+	var got []int
+	cc := mline.NewCallCtx(hash, func(ctx context.Context, idx int, req interface{}) (interface{}, error) {
+		got = append(got, idx) // serial by construction: one submission at a time
+		return idx, nil
+	}, nil)
+	d := engine.NewDriver(Q, k)
+	seq := []*mline.MultiLine{ma, mb, ma, mb, mb, ma}
+	if r.Intn(2) == 0 {
+		seq = []*mline.MultiLine{mb, ma, mb, ma}
+	}
+	for i, m := range seq {
+		m := m
+		op := d.Spawn("AsyncCall", func() any { v, err := m.AsyncCall(context.Background(), cc); return callRes{v, err} })
+		if !d.Quiesce() {
+			break
+		}
+		if !op.Done() {
+			k.Fail("caller-stuck", "submission %d of a reused call context never returned", i)
+			break
+		}
+		if pv := op.Panic(); pv != nil {
+			k.Fail("panic", "submission %d of a reused call context (hash %d) to a MultiLine with %d lanes panicked: %v", i, hash, m.SlotSize(), pv)
+			break
+		}
+		cr := op.Result().(callRes)
+		want := m.IndexOf(hash)
+		if cr.err != nil || cr.v != want || want < 0 || want >= m.SlotSize() {
+			k.Fail("routing-mismatch", "submission %d: call context with hash %d on a MultiLine with %d lanes ran with lane index %v (error %v), IndexOf says %d", i, hash, m.SlotSize(), cr.v, cr.err, want)
+			break
+		}
+	}
+	ma.Stop()
+	mb.Stop()
+	ma.WaitStop(context.Background())
+	mb.WaitStop(context.Background())
+	k.Count("ctx_reuse_cases", 1)
 }
